@@ -53,17 +53,31 @@ class G(FandangoParty):
 #   end with an error / must never contain the offending message)
 SCENARIOS = {
     "pingpong": dict(
-        body='<start> ::= <F:E:ping> <E:F:pong> <F:E:puff> <E:F:paff>\n<ping> ::= "pi" | "pa"\n<pong> ::= "po" <d>\n<d> ::= r"[0-9]"\n<puff> ::= "pu"\n<paff> ::= "pf" | "pg"\n'
-             'where int(<pong>.<d>) > 3\n',
-        msgs={"ping": ("F", "E", r"pi|pa"), "pong": ("E", "F", r"po[4-9]"), "puff": ("F", "E", r"pu"), "paff": ("E", "F", r"pf|pg")},
+        body='<start> ::= <F:E:ping> <E:F:pong> <F:E:puff> <E:F:paff>\n<ping> ::= "pi" | "pa"\n<pong> ::= "po" <d>\n<d> ::= r"[0-9]"\n<puff> ::= "pu"\n<paff> ::= "pf" | "pg" <e>\n<e> ::= r"[0-9]"\n'
+             'where int(<pong>.<d>) > 3\nwhere forall <x> in <paff>..<e>: int(<x>) < 5\n',
+        msgs={"ping": ("F", "E", r"pi|pa"), "pong": ("E", "F", r"po[4-9]"), "puff": ("F", "E", r"pu"), "paff": ("E", "F", r"pf|pg[0-4]")},
         lang=Seq((Lit("ping;"), Lit("pong;"), Lit("puff;"), Lit("paff;"))),
         scripts={
-            "valid": ({"pi": [("E", "F", "po7")], "pa": [("E", "F", "po5")], "pu": [("E", "F", "pg")]}, [], "complete"),
-            "wrong_type": ({"pi": [("E", "F", "pf")], "pa": [("E", "F", "pf")], "pu": [("E", "F", "pg")]}, [], "error"),
-            "violates_constraint": ({"pi": [("E", "F", "po2")], "pa": [("E", "F", "po2")], "pu": [("E", "F", "pg")]}, [], "error"),
-            "truncated": ({"pi": [("E", "F", "po")], "pa": [("E", "F", "po")], "pu": [("E", "F", "pg")]}, [], "error"),
-            "garbage_tail": ({"pi": [("E", "F", "po7")], "pa": [("E", "F", "po7")], "pu": [("E", "F", "pgX")]}, [], "any"),
+            "valid": ({"pi": [("E", "F", "po7")], "pa": [("E", "F", "po5")], "pu": [("E", "F", "pg3")]}, [], "complete"),
+            "valid_other_type": ({"pi": [("E", "F", "po7")], "pa": [("E", "F", "po5")], "pu": [("E", "F", "pf")]}, [], "complete"),
+            "wrong_type": ({"pi": [("E", "F", "pf")], "pa": [("E", "F", "pf")], "pu": [("E", "F", "pg1")]}, [], "error"),
+            "violates_constraint": ({"pi": [("E", "F", "po2")], "pa": [("E", "F", "po2")], "pu": [("E", "F", "pg1")]}, [], "error"),
+            "second_reply_violates_constraint": ({"pi": [("E", "F", "po7")], "pa": [("E", "F", "po5")], "pu": [("E", "F", "pg8")]}, [], "error"),
+            "truncated": ({"pi": [("E", "F", "po")], "pa": [("E", "F", "po")], "pu": [("E", "F", "pg1")]}, [], "error"),
+            "garbage_tail": ({"pi": [("E", "F", "po7")], "pa": [("E", "F", "po7")], "pu": [("E", "F", "pg1X")]}, [], "any"),
             "early": ({"pi": [], "pa": [], "pu": [("E", "F", "pf")]}, [["E", "F", "po9"]], "any"),
+        },
+    ),
+    "lookahead": dict(
+        # <r1> is not prefix-free: the parser has to read one unit past its end before it knows the message is over
+        body='<start> ::= <F:E:go> <E:F:r1> <E:F:r2> <F:E:fin>\n<go> ::= "go"\n<r1> ::= "ok" "!"*\n<r2> ::= "pf" | "qf"\n<fin> ::= "."\n',
+        msgs={"go": ("F", "E", r"go"), "r1": ("E", "F", r"ok!*"), "r2": ("E", "F", r"pf|qf"), "fin": ("F", "E", r"\.")},
+        lang=Seq((Lit("go;"), Lit("r1;"), Lit("r2;"), Lit("fin;"))),
+        scripts={
+            "one_burst": ({"go": [("E", "F", "ok!!pf")]}, [], "complete"),
+            "no_bangs": ({"go": [("E", "F", "okqf")]}, [], "complete"),
+            "two_bursts": ({"go": [("E", "F", "ok!"), ("E", "F", "pf")]}, [], "complete"),
+            "second_missing": ({"go": [("E", "F", "ok!!")]}, [], "error"),
         },
     ),
     "optional_repeat": dict(
